@@ -15,6 +15,9 @@
  *         the pending set) and B is made due; when A's helper finishes the freed slot must wake the scheduler for B at once
  *         (F-C04a); repeated 12 times, the driver takes the median of the delays.  script=wakeup_async: the same with A's command
  *         being asynchronous (PluginCheckTask-like): the slot is freed by the finished process, not by the helper (F-C04b)
+ *         script=skip_pause: A has active checks disabled, so the scheduler skips it and calls UpdateNextCheck() with its mutex
+ *         released (checkercomponent.cpp:178-196); an OnNextCheckChanged slot of the harness pauses A from inside that window (on the
+ *         scheduler's thread).  A must stay out of both sets until it is resumed (10 repetitions)
  *   K <cid> <enabled 0|1> <check_us> <retry_us> <async>  declaration (enabled = active checks on and period open; async = the
  *                                                        command behaves like PluginCheckTask: spawns and returns)
  *   E pick <cid> <forced>   | <inIdle> <inPending> <key_us> <now_us> <counter>      scheduler dispatched <cid>
@@ -202,6 +205,7 @@ static std::atomic<int> l_Parallel{0}, l_MaxParallel{0}, l_Overlap{0};
 static std::atomic<bool> l_Stop{false};
 static std::atomic<long> l_SchedTid{0};
 static std::atomic<long long> l_LastSchedUs{0};
+static std::atomic<int> l_PauseInSkip{-1}; /* probe skip_pause: pause this checkable when the scheduler thread changes its next_check */
 static std::atomic<int> l_DelayPermille{60};
 
 static thread_local Rng *t_Rng = nullptr;
@@ -539,7 +543,9 @@ static int RunScenario(const std::vector<std::string>& w)
 	Rng rng(l_Seed);
 	bool wakeupAsync = kv.count("script") && kv["script"] == "wakeup_async";
 	bool wakeup = wakeupAsync || (kv.count("script") && kv["script"] == "wakeup");
+	bool skipPause = kv.count("script") && kv["script"] == "skip_pause";
 	if (wakeup) { n = 2; pool = 0; maxc = 1; mut = 0; }
+	if (skipPause) { n = 2; pool = 0; maxc = 2; mut = 0; }
 
 	Configuration::Concurrency = 12; /* thread pool = 24 threads */
 	InitIcinga();
@@ -608,6 +614,16 @@ static int RunScenario(const std::vector<std::string>& w)
 	meanUs = std::min(20000.0, std::max(150.0, meanUs));
 	for (CInfo *ci : l_C)
 		ci->execMeanUs = meanUs * (0.3 + rng.below(1400) / 1000.0);
+	if (skipPause) {
+		for (CInfo *ci : l_C) {
+			ci->async = false; ci->mode = 0; ci->enabled = true;
+			ci->obj->SetEnableActiveChecks(true); ci->obj->SetCheckPeriodRaw("");
+			ci->obj->SetCheckInterval(30); ci->obj->SetRetryInterval(30); ci->checkUs = ci->retryUs = 30000000;
+			ci->fixedExecUs = 1000;
+		}
+		l_C[0]->obj->SetEnableActiveChecks(false); /* A is skipped whenever it comes due */
+		l_C[0]->enabled = false;
+	}
 	if (wakeup) {
 		for (CInfo *ci : l_C) {
 			ci->async = false; ci->mode = 0; ci->enabled = true;
@@ -620,12 +636,26 @@ static int RunScenario(const std::vector<std::string>& w)
 	}
 
 	printf("%s %s sched seed=%llu n=%d pool=%d max=%d dur_ms=%d mut=%d bound_ms=%s%s\n", w[0].c_str(), w[1].c_str(),
-		(unsigned long long)l_Seed, n, pool, maxc, durMs, mut, kv["bound_ms"].c_str(), wakeupAsync ? " script=wakeup_async" : wakeup ? " script=wakeup" : "");
+		(unsigned long long)l_Seed, n, pool, maxc, durMs, mut, kv["bound_ms"].c_str(), wakeupAsync ? " script=wakeup_async" : wakeup ? " script=wakeup" : skipPause ? " script=skip_pause" : "");
 	for (int i = 0; i < total; i++)
 		printf("K %d %d %lld %lld %d\n", i, l_C[i]->enabled ? 1 : 0, l_C[i]->checkUs, l_C[i]->retryUs, l_C[i]->async ? 1 : 0);
 
 	l_DelayPermille = 20 + (int)rng.below(120);
 	VerifPointHook() = Hook;
+	/* probe skip_pause: runs inside Checkable::SetNextCheck, i.e. for the scheduler's skip path inside the window in which it has
+	 * released its mutex; connected before the checker connects its own handler */
+	Checkable::OnNextCheckChanged.connect([](const Checkable::Ptr& checkable, const Value&) {
+		int armed = l_PauseInSkip.load();
+		if (armed < 0 || checkable.get() != static_cast<Checkable *>(l_C[armed]->obj.get()))
+			return;
+		if ((long)syscall(SYS_gettid) != l_SchedTid.load())
+			return;
+		CInfo& ci = *l_C[armed];
+		std::unique_lock<std::mutex> lock(ci.mut);
+		if (!ci.paused)
+			OpPause(armed);
+		l_PauseInSkip = -1;
+	});
 
 	l_Checker = new CheckerComponent();
 	l_Checker->SetName("checker");
@@ -704,7 +734,34 @@ static int RunScenario(const std::vector<std::string>& w)
 	std::vector<std::thread> threads;
 	for (int i = 0; i < mut; i++)
 		threads.emplace_back(Mutator, i, n);
-	if (wakeup) {
+	if (skipPause) {
+		l_DelayPermille = 0;
+		auto waitFor2 = [](std::function<bool()> cond, int ms) {
+			for (int i = 0; i < ms * 2 && !cond(); i++)
+				std::this_thread::sleep_for(std::chrono::microseconds(500));
+			return cond();
+		};
+		CInfo& A = *l_C[0];
+		CInfo& B = *l_C[1];
+		{ std::unique_lock<std::mutex> la(A.mut); if (A.paused) OpResume(0); }
+		{ std::unique_lock<std::mutex> lb(B.mut); if (B.paused) OpResume(1); }
+		/* let the scheduler run once so that its thread is known (B executes) */
+		{ std::unique_lock<std::mutex> lb(B.mut); OpSetNext(1, Utility::GetTime()); }
+		waitFor2([&]() { return l_SchedTid.load() != 0 && B.execNo.load() > 0; }, 3000);
+		for (int rep = 0; rep < 10; rep++) {
+			{ std::unique_lock<std::mutex> la(A.mut); if (A.paused) OpResume(0); }
+			std::this_thread::sleep_for(std::chrono::milliseconds(10));
+			l_PauseInSkip = 0;
+			{ std::unique_lock<std::mutex> la(A.mut); OpSetNext(0, Utility::GetTime()); } /* due: the scheduler takes A and skips it */
+			waitFor2([&]() { return l_PauseInSkip.load() < 0; }, 2000);
+			l_PauseInSkip = -1;
+			/* A is paused now; give the scheduler time to finish its skip path, then look again through B's sections */
+			std::this_thread::sleep_for(std::chrono::milliseconds(30));
+			{ std::unique_lock<std::mutex> lb(B.mut); OpSetNext(1, Utility::GetTime()); }
+			std::this_thread::sleep_for(std::chrono::milliseconds(20));
+		}
+		/* A stays paused: the quiescent snapshot must not find it in a set */
+	} else if (wakeup) {
 		l_DelayPermille = 0;
 		auto waitFor = [](std::function<bool()> cond, int ms) {
 			for (int i = 0; i < ms * 2 && !cond(); i++)
@@ -914,6 +971,14 @@ int main(int argc, char **argv)
 			char buf[256];
 			snprintf(buf, sizeof(buf), "C %d sched seed=%llu n=2 pool=0 max=1 dur_ms=3000 mut=0 bound_ms=2500 script=%s", caseNo++,
 				(unsigned long long)(rng.next() >> 16), i % 2 ? "wakeup_async" : "wakeup");
+			Job j;
+			j.line = buf;
+			jobs.push_back(j);
+		}
+		for (int i = 0; i < (thorough ? 2 : 1); i++) {
+			char buf[256];
+			snprintf(buf, sizeof(buf), "C %d sched seed=%llu n=2 pool=0 max=2 dur_ms=3000 mut=0 bound_ms=2500 script=skip_pause", caseNo++,
+				(unsigned long long)(rng.next() >> 16));
 			Job j;
 			j.line = buf;
 			jobs.push_back(j);
